@@ -122,18 +122,25 @@ func (p *Prog) verifyFunc(t target, findings []*Finding) (fr *FuncResult) {
 				old := &Env{x: e, fn: fn, cur: e.entry, old: e.entry, vars: vars}
 				old.oldEnv = old
 				env.oldEnv = old
-				o := e.obl("ensures", en.Label, nil)
-				o.Pos = fmt.Sprintf("%s:%d", shortFile(en.File), en.Line)
-				if len(en.Props) > 0 {
-					o.Props = en.Props
+				parts := splitConj(en.Expr)
+				for pi, part := range parts {
+					lbl := en.Label
+					if len(parts) > 1 {
+						lbl = fmt.Sprintf("%s/%d", en.Label, pi+1)
+					}
+					o := e.obl("ensures", lbl, nil)
+					o.Pos = fmt.Sprintf("%s:%d", shortFile(en.File), en.Line)
+					if len(en.Props) > 0 {
+						o.Props = en.Props
+					}
+					o.Expect = "unsat"
+					// per-return-site goals: one return's post is not assumed at another
+					goal := env.evalBool(part)
+					o.at = len(c.lines)
+					o.goal = fmt.Sprintf("(=> %s %s)", r.st.pc, goal)
+					o.ctx = c
+					c.obls = append(c.obls, o)
 				}
-				o.Expect = "unsat"
-				// per-return-site goals: do not assume one return's post at another
-				goal := env.evalBool(en.Expr)
-				o.at = len(c.lines)
-				o.goal = fmt.Sprintf("(=> %s %s)", r.st.pc, goal)
-				o.ctx = c
-				c.obls = append(c.obls, o)
 			}
 		}
 	}
